@@ -5,6 +5,7 @@ import (
 	"go/constant"
 	"go/token"
 	"go/types"
+	"os"
 	"sort"
 	"strings"
 
@@ -216,6 +217,7 @@ func ruleR13(c *Ctx, prop string) {
 		c.violate("R13", "R13:anchor", "", "no function *TensorProto -> (tensor, error) in package onnx")
 		return
 	}
+	n0R13 := len(c.obls)
 	full := prop == "C12"
 	tables := full || prop == "C11" // C11: Constant's `value` tensor is decoded by the same tables (D1-D3 only)
 	byName := map[string]onnxType{}
@@ -249,6 +251,33 @@ func ruleR13(c *Ctx, prop string) {
 			}
 			c.checkD2(g, t, readers)
 		}
+		// raw readers also by role ([]byte -> []T (, error) in package onnx), for dispatches the getter table above
+		// does not recognise
+		for _, g := range c.libFns {
+			if fnPkgPath(g) != pkgOnnx || g.Parent() != nil || g.Signature.Recv() != nil || len(g.Params) != 1 || g.Origin() != nil || g.TypeParams().Len() > 0 {
+				continue
+			}
+			if k, ok := basicKindOfSliceElem(g.Params[0].Type()); !ok || k != types.Uint8 {
+				continue
+			}
+			nr := g.Signature.Results().Len()
+			if nr < 1 || nr > 2 || (nr == 2 && !isErrorType(g.Signature.Results().At(1).Type())) {
+				continue
+			}
+			ek, ok := basicKindOfSliceElem(g.Signature.Results().At(0).Type())
+			if !ok {
+				continue
+			}
+			if _, have := readers[g]; have {
+				continue
+			}
+			for _, t := range onnxTypes {
+				if t.goT == ek {
+					readers[g] = t
+					break
+				}
+			}
+		}
 		var rs []*ssa.Function
 		for r := range readers {
 			rs = append(rs, r)
@@ -266,13 +295,17 @@ func ruleR13(c *Ctx, prop string) {
 			c.checkD4(rs, di)
 		}
 	}
+	nTablesEnd := len(c.obls)
+	_ = nTablesEnd
 	if prop == "C11" {
+		c.applyDecodeTable(n0R13)
 		return
 	}
 	// D5: only the supported cases reach tensor construction (a C12 clause; not a crash)
 	if full {
 		c.checkD5(di, byName)
 	}
+	c.applyDecodeTable(n0R13)
 	// D6: count/dims gate
 	ok, why := c.checkD6(di)
 	c.decide(ok, "R13", "R13:D6", c.pos(di.newCall.Pos()), "every path to tensor construction passes rejecting checks: each dim >= 1 and element count == product of dims", why)
@@ -1324,4 +1357,59 @@ func convsOrOneComparison(trail string) bool {
 		}
 	}
 	return cmp <= 1
+}
+
+// applyDecodeTable: the dispatch clauses (D1 per type, D2 per type, D5 for unsupported types) as the finite table
+// decides them, where the structural reading of the switch does not recognise the code. The fallback for
+// UNDEFINED (a known finding with a key of its own) is left to D5.
+func (c *Ctx) applyDecodeTable(from int) {
+	needed := false
+	for i := from; i < len(c.obls); i++ {
+		o := c.obls[i]
+		if !o.Control && (o.Status == StViolated || o.Status == StUndecided) && (strings.HasPrefix(o.Key, "R13:D1:") || strings.HasPrefix(o.Key, "R13:D2:") || o.Key == "R13:D5:fallback:any" || o.Key == "R13:floor") {
+			needed = true
+		}
+	}
+	if !needed && os.Getenv("DECODEDEBUG") == "" {
+		return
+	}
+	t := c.decodeTable()
+	if os.Getenv("DECODEDEBUG") != "" {
+		fmt.Println("DECODEDEBUG table", t.known, t.cells, t.bads)
+	}
+	if !t.known {
+		return
+	}
+	c.counts["R13.dispatch_table_cells"] = t.cells
+	for i := from; i < len(c.obls); i++ {
+		o := &c.obls[i]
+		if o.Control || (o.Status != StViolated && o.Status != StUndecided) {
+			continue
+		}
+		bad, mine := "", false
+		switch {
+		case strings.HasPrefix(o.Key, "R13:D1:") || strings.HasPrefix(o.Key, "R13:D2:"):
+			name := strings.TrimPrefix(strings.TrimPrefix(o.Key, "R13:D1:"), "R13:D2:")
+			if j := strings.Index(name, ":"); j >= 0 {
+				continue // helper-level obligations (narrowing functions) have rules of their own
+			}
+			for _, ot := range onnxTypes {
+				if ot.name == name {
+					mine, bad = true, t.bads[name]
+				}
+			}
+		case o.Key == "R13:D5:fallback:any":
+			mine, bad = true, t.bads["unsupported"]
+		case o.Key == "R13:floor":
+			mine = len(t.bads) == 0
+		}
+		if !mine {
+			continue
+		}
+		if bad == "" {
+			o.Status, o.Why = StDischarged, "by the finite dispatch table (the structural reading of the dispatch is not recognised): "+fmt.Sprint(t.cells)+" cells"
+		} else {
+			o.Status, o.Why = StViolated, bad
+		}
+	}
 }
